@@ -16,6 +16,11 @@ def sh(cmd, cwd=None, env=None, timeout=3600):
     return r.returncode, r.stdout + r.stderr
 
 
+def _norm(t):
+    """equivalence scripts may print how long they ran; that line is not part of the comparison"""
+    return '\n'.join(l for l in t.splitlines() if not re.match(r'\s*(elapsed|wall|took|time)\b', l))
+
+
 def main():
     wt, case = sys.argv[1], sys.argv[2]
     checks = ALL
@@ -48,7 +53,7 @@ def main():
                         '--continue-on-collection-errors'], cwd=wt)
         m = re.search(r'(\d+) passed', outt)
         rep.update(files_changed=files, compiles=ok, equiv_clean_exit=rc0, equiv_patched_exit=rc1,
-                   equivalent=(rc0 == 0 and rc1 == 0 and out0 == out1), pytest_passed=int(m.group(1)) if m else None)
+                   equivalent=(rc0 == 0 and rc1 == 0 and _norm(out0) == _norm(out1)), pytest_passed=int(m.group(1)) if m else None)
         env = dict(os.environ, VERIF_REPO=wt, VERIF_VARIANT='1')
         verdicts = {}
         for pid in checks:
